@@ -1,0 +1,12 @@
+//go:build go1.20
+// +build go1.20
+
+package cache
+
+import "sync"
+
+// deleteSame deletes the key only if it still holds the entry that was examined,
+// an entry that was written in the meantime is kept.
+func deleteSame(m *sync.Map, key interface{}, entry *TraitEntry) {
+	m.CompareAndDelete(key, entry)
+}
